@@ -65,7 +65,8 @@ PRECONDITIONS = {
     ('bin', 'logger-init', 'once'):
         (1, 'env_logger init is called exactly once, at the start of main'),
     ('parser', 'Matrix-index_mut', 'row-from-enumerate'):
-        (3, 'row index < 2 by the two-component guard: decided by C17.R2'),
+        (32, 'row index < 2 by the two-component guard: decided, for every matrix index site of the parser, by C17.R2 (no cap on '
+             'the number of such sites: a log line that reads the row back is one more)'),
 }
 
 
@@ -337,6 +338,11 @@ def _judge(ctx, oa, b, cfg, tr, bi, site, fams):
             return 'discharged', 'index(constant below guarded length)', r
         idx = tr.origin(t['args'][1])
         if idx['o'] == 'const' and b.file.endswith('to_svg.rs'):
+            co = tr.origin(t['args'][0])
+            kv = const_value(idx['c'])
+            if co['o'] == 'call' and call_matches(co['term'], 'Cell2::get_corners') and isinstance(kv, int) and not 0 <= kv < 4:
+                # (get_corners returns exactly four points: C11.R7 / C14.R6)
+                return 'violation', 'vec-index', 'corners[%d]: Cell2::get_corners returns four points' % kv
             return 'table', ('svg', 'Vec-index', 'corners-or-items-constant-index'), ''
         return 'violation', 'vec-index', 'Vec/slice indexing that is not shown to be in bounds'
     if 'Builder::init' in n or 'logger::init' in n:
@@ -764,6 +770,7 @@ def _const_param(ctx, b, tr, op, label):
 
 
 _SIZES = {}
+_LOGONLY = {}
 
 
 def _sizes(ctx):
@@ -784,6 +791,10 @@ def _overflow(ctx, oa, b, cfg, tr, bi, t):
         if sg:
             return 'discharged', 'subtraction-cannot-underflow', sg
     a, c = t['ops']
+    if binop == 'Sub':
+        lm = _len_monotone_sub(b, cfg, tr, bi, a, c)
+        if lm:
+            return 'discharged', 'length-of-a-growing-vec-minus-an-earlier-length', lm
     sz = _sizes(ctx)
     try:
         ia, ic = sz.interval(b, a), sz.interval(b, c)
@@ -862,6 +873,29 @@ def _overflow(ctx, oa, b, cfg, tr, bi, t):
     return 'violation', '%s/%s' % (b.fn_name, sigk), 'integer overflow check that is neither discharged nor tabled'
 
 
+def _len_monotone_sub(b, cfg, tr, bi, a, c):
+    """`v.len() - earlier` where `earlier` is v.len() read at a point that dominates this one and v is never shrunk in the body
+    (only push / append / extend / insert): a Vec that only grows is at least as long as it was."""
+    ao, co = tr.origin(a), tr.origin(c)
+    if not (ao['o'] == 'call' and co['o'] == 'call' and not ao['p'] and not co['p']):
+        return None
+    if not (call_matches(ao['term'], 'Vec::<T, A>::len') and call_matches(co['term'], 'Vec::<T, A>::len')):
+        return None
+    va, vc = container_root(b, tr, ao['term']['args'][0]), container_root(b, tr, co['term']['args'][0])
+    if va is None or va != vc:
+        return None
+    shrinkers = tuple(x for x in RESIZERS if not x.endswith(('::push', '::append', '::insert')))
+    for _bi2, tt in b.calls():
+        if call_matches(tt, *shrinkers) and tt['args'] and container_root(b, tr, tt['args'][0]) == va:
+            return None
+    # no re-assignment of the Vec between the two reads: a single definition of the container local
+    if len([d for d in tr.defs.of(va)]) > 1:
+        return None
+    if not (cfg.dominates(co['bb'], ao['bb']) and cfg.dominates(ao['bb'], bi)):
+        return None
+    return 'both operands are lengths of _%d, which is only ever appended to; the subtrahend was read first' % va
+
+
 def _pure_unit_counter(ctx, b, cfg, tr, a, ao):
     """The incremented value is a counter in the strict sense: a local (or a struct field) that is only ever given a constant or its
     own value plus one (plus a bool).  Not: a value that comes from a parameter, a field set elsewhere, a call."""
@@ -874,7 +908,13 @@ def _pure_unit_counter(ctx, b, cfg, tr, a, ao):
         o2 = tr2.origin(rv['a'])
         if o2['o'] != 'rvalue' or o2['rv'].get('r') != 'binop' or not o2['rv']['op'].startswith('Add'):
             return False
-        lo, ro = tr2.origin(o2['rv']['a']), o2['rv']['b']
+        raw = o2['rv']['a']
+        lo, ro = tr2.origin(raw), o2['rv']['b']
+        # (the operand as written — `(*counts).improved` — says which place is read even where origin() has already looked
+        # through to the value that place was first given)
+        rawf = [e for e in (raw.get('p') or []) if isinstance(e, dict) and 'f' in e] if isinstance(raw, dict) else []
+        if rawf:
+            lo = {'o': 'place', 'l': raw.get('l'), 'p': raw['p']}
         one = ro.get('k') == 'const' and const_value(ro) == 1
         if not one and 'l' in ro:
             r2 = tr2.origin(ro)
@@ -882,6 +922,9 @@ def _pure_unit_counter(ctx, b, cfg, tr, a, ao):
                 (r2['o'] == 'rvalue' and r2['rv'].get('r') == 'cast' and r2['rv']['a'].get('ty') == 'bool') or \
                 (r2['o'] == 'call' and r2['term']['args'] and r2['term']['args'][0].get('ty') == 'bool')
         return one and is_self(lo)
+    if ao['o'] == 'call' and not ao.get('p') and 'atomic' in (callee_name(ao['term']) or '').lower() and \
+            (callee_name(ao['term']) or '').endswith(('::fetch_add', '::load')):
+        return 'the value of an atomic counter (fetch_add / load) plus one'
     if ao['o'] == 'local' and not ao.get('p'):
         x = ao['l']
         web = copy_web(b, tr, cfg.reach, x)
@@ -1689,6 +1732,14 @@ def _r3(ctx, oa):
                     continue   # drop flags / unit temporaries
                 if not _def_reaches_outside(b, cfg, l, bi, si, region):
                     continue   # the value written here is read only inside the block (reaching definitions)
+                if l not in b.args():
+                    # a tally that is only counted and reported: everything read from it flows into log / print arguments
+                    from .C09 import _flows_only_to_log
+                    key_ = (id(b), l)
+                    if key_ not in _LOGONLY:
+                        _LOGONLY[key_] = (id(b), _flows_only_to_log(b, {l}) is True)
+                    if _LOGONLY[key_][0] == id(b) and _LOGONLY[key_][1]:
+                        continue
                 bad.append((bi, 'local _%d (%s: %s) is written in the convergence block and visible outside it'
                             % (l, b.local_name(l), ty)))
         t = bb['term']
@@ -1747,7 +1798,8 @@ def _r3(ctx, oa):
             if t['t'] != 'switch':
                 continue
             o = tr.origin(t['discr'])
-            if o['o'] == 'rvalue' and o['rv']['r'] == 'binop' and o['rv']['op'] in ('Lt', 'Le'):
+            if o['o'] == 'rvalue' and o['rv']['r'] == 'binop' and o['rv']['op'] == 'Lt':
+                # (strictly less: "improved by LESS than the threshold"; with `<=` a threshold of 0 ends a flat run early)
                 d = tr.origin(o['rv']['a'])
                 p = tr.origin(o['rv']['b'])
                 if d['o'] == 'rvalue' and d['rv']['r'] == 'binop' and d['rv']['op'] == 'Sub':
